@@ -6,6 +6,7 @@ package main
 // Encoder side (c01enc.go): values of the tree-level universe; observable: emitted bytes.
 
 import (
+	"reflect"
 	"strings"
 )
 
@@ -26,6 +27,10 @@ func replayC01(c *Ctx, op string, args []string) bool {
 			return false
 		}
 		c01Enc(c, args[0], unhx(args[1]), args[2])
+	case "c01.rt":
+		c02RTop(c, op, args[0], args[1], unhx(args[2]), args[3], args[4])
+	case "c02.tf", "c02.dec", "c02.dec2":
+		return replayC02(c, op, args)
 	default:
 		return false
 	}
@@ -134,11 +139,35 @@ func genC01(c *Ctx) {
 		}
 		run(t, nil, []string{"any", "raw", "skip"}, false)
 	}
-	// strings longer than the decoders accept (known finding C01.string-over-32767)
+	// strings longer than the property covers (32768..65535 bytes): model comparison only, no demand
 	for _, n := range []int{32768, 40000, 65535} {
 		s := []byte(strings.Repeat("s", n))
 		run(&nbtNode{tag: 8, data: s}, nil, []string{"any", "raw"}, false)
 		run(&nbtNode{tag: 10, keys: [][]byte{s}, vals: []*nbtNode{{tag: 1, num: 7}}}, nil, []string{"map", "skip"}, false)
 	}
 	genC01Enc(c)
+	// the typed universe (harness/c02*.go): field tables, and Encode of typed values judged by the C01 clauses
+	cg := &c02Gen{c: c, r: c.R, g: g, gf: &nbtGen{r: c.R, noFloat: true}}
+	descs, types := c02Types(c, cg, c.N(40, 1000))
+	for round := 0; round < 2; round++ {
+		for _, t := range types {
+			for t.Kind() == reflect.Pointer {
+				t = t.Elem()
+			}
+			if t.Kind() == reflect.Struct && t != c02RawT && t != c02DynT {
+				c02TF(c, c02Describe(t))
+			}
+		}
+	}
+	for round := 0; round < c.N(25, 200); round++ {
+		for i, t := range types {
+			v := cg.value(t, 3)
+			var nm []byte
+			if (round+i)%3 == 0 {
+				nm = g.bytesOf(c.R.Intn(5))
+			}
+			c02RTop(c, "c01.rt", []string{"file", "net"}[(round+i)%2], []string{"val", "ptr"}[(round/2+i)%2], nm, descs[i], c02ShowStr(v))
+		}
+	}
+	c02GenDec(c, cg, descs, types, c.N(3, 30), c.N(2, 20))
 }
